@@ -22,9 +22,9 @@ ASSUMPTIONS = [
     "a column prepared to vmax[c] can supply at most vmax[c] per well to the columns (and the destination plate) drawn from it",
     "execution on fresh labware: troughs hold v_stock / v_diluent plus a reserve, plate limits never interfere",
 ]
-BUDGET = {"quick": (4, 800), "thorough": (16, 6000)}
+BUDGET = {"quick": (4, 1500), "thorough": (16, 8000)}
 KNOWN_KINDS = {}
-STRATA = ["plan-log", "plan-linear", "plan-vector-vmax", "execute"]
+STRATA = ["plan-log", "plan-linear", "plan-vector-vmax", "plan-vector-vmax", "execute"]
 REQUIRED_CLASSES = ["planned", "ValueError", "serial", "stock-only", "two-columns-from-one-source", "executed", "executed:destination", "executed:evo", "executed:fluent", "vector-vmax"]
 
 
